@@ -92,7 +92,8 @@ impl Rewriter for DtlsRewriter {
         let msg_seq = u16::from_be_bytes([r.body[4], r.body[5]]);
         let body = &r.body[12..];
         match name {
-            "split" => {
+            "split" | "split_drop" | "split_dup" | "split_rev" => {
+                // a[0] = number of fragments, a[1] = which fragment the second fault hits
                 let parts = arg(0).clamp(2, 4) as usize;
                 let total = body.len();
                 let step = total.div_ceil(parts).max(1);
@@ -107,6 +108,19 @@ impl Rewriter for DtlsRewriter {
                 }
                 if out.is_empty() {
                     out.push(data.to_vec());
+                }
+                // fragments travel as separate datagrams, so the network can lose, duplicate or reorder them
+                let k = (arg(1).max(0) as usize) % out.len();
+                match name {
+                    "split_drop" => {
+                        out.remove(k);
+                    }
+                    "split_dup" => {
+                        let d = out[k].clone();
+                        out.insert(k, d);
+                    }
+                    "split_rev" => out.reverse(),
+                    _ => {}
                 }
                 out
             }
@@ -149,6 +163,8 @@ impl Rewriter for DtlsRewriter {
 // C03.wire oracle
 // ---------------------------------------------------------------------------
 struct WireSt {
+    /// virtual time (ms) at which each host first sent ChangeCipherSpec: its keys certainly exist from then on
+    ccs_at: BTreeMap<String, f64>,
     seen: HashSet<(String, u16, u64)>,
     app_records: u64,
     max_plain: usize,
@@ -160,6 +176,10 @@ impl WireOracle for DtlsWire {
             return;
         }
         let mut st = self.0.lock().unwrap();
+        if rec.ct == 20 {
+            let now = sh.now_ms();
+            st.ccs_at.entry(from.to_string()).or_insert(now);
+        }
         if rec.ct == 23 {
             st.app_records += 1;
             if rec.epoch == 0 {
@@ -230,7 +250,7 @@ pub async fn run(ctx: &Ctx) {
     let fp_a = fp_for(plan.knob("fp_a", 0), cert_b);
     let fp_b = fp_for(plan.knob("fp_b", 0), cert_a);
 
-    let wire = Arc::new(Mutex::new(WireSt { seen: HashSet::new(), app_records: 0, max_plain: 0 }));
+    let wire = Arc::new(Mutex::new(WireSt { ccs_at: BTreeMap::new(), seen: HashSet::new(), app_records: 0, max_plain: 0 }));
     {
         let mut m = crate::monitor::StdMonitor::new(ctx.keys.clone());
         m.oracles.push(Box::new(DtlsWire(wire.clone())));
@@ -465,6 +485,18 @@ pub async fn run(ctx: &Ctx) {
     }
     // ---- C03.state ----
     if prop == "C03" && plan.knob("lossless", 0) == 1 && closes == 0 {
+        // no genuine datagram was harmed and nobody closed: the only way to see Closed/Failed, even transiently,
+        // is a state change caused by a record that did not authenticate
+        // ("once keys are negotiated": judged from the moment the endpoint sent its own ChangeCipherSpec; before
+        // that, DTLS alerts are cleartext by design and the statement makes no claim)
+        let ccs_at = wire.lock().unwrap().ccs_at.clone();
+        for (side, name, at) in trans.lock().unwrap().iter() {
+            let keyed = ccs_at.get(names[*side]).map(|t| (*at as f64) > *t).unwrap_or(false);
+            if keyed && (name == "Closed" || name == "Failed") {
+                ctx.violate("C03.state", format!("endpoint {} published state {} at {} ms although only unauthenticated third-party records were added to an otherwise fault-free exchange", names[*side], name, at));
+                break;
+            }
+        }
         for side in 0..2 {
             if st[side] != "Connected" {
                 ctx.violate("C03.state", format!("endpoint {} ended in state {} although only unauthenticated third-party records were added to an otherwise fault-free exchange", names[side], st[side]));
@@ -551,6 +583,12 @@ fn c11_actions() -> Vec<Action> {
         Action::Delay { ms: 6000 },
         Action::Rewrite { name: "split".into(), a: vec![2] },
         Action::Rewrite { name: "split".into(), a: vec![3] },
+        Action::Rewrite { name: "split_drop".into(), a: vec![2, 1] },
+        Action::Rewrite { name: "split_drop".into(), a: vec![3, 0] },
+        Action::Rewrite { name: "split_dup".into(), a: vec![2, 0] },
+        Action::Rewrite { name: "split_dup".into(), a: vec![3, 2] },
+        Action::Rewrite { name: "split_rev".into(), a: vec![2] },
+        Action::Rewrite { name: "split_rev".into(), a: vec![3] },
     ]
 }
 
@@ -695,6 +733,10 @@ pub fn generate(prop: &str, seed: u64, idx: u64, tier: Tier) -> Plan {
             }
             if r.chance(20) {
                 p.faults.push(Rule { from: r.pick(&["A", "B"]).to_string(), class: "DTLS:hs:finished".into(), ordinal: 0, action: Action::Rewrite { name: "bitflip_fan".into(), a: vec![29, 3] } });
+            }
+            if r.chance(30) {
+                // an orderly close after the traffic: its close_notify record is subject to the wire rules too
+                p.ops.push(Op::new(t0 + 300 + r.below(500), "close", &[r.below(2) as i64]));
             }
             p.heal_at_ms = 60_000;
         }
